@@ -156,7 +156,7 @@ Print Assumptions C15_api_roundtrip.
    reflection succeeds and every package name splits *)
 Theorem C15_api_from_image_ok : forall D svcs W fs S ow apiS,
   add_structure W (api_init W) svcs = ROk apiS ->
-  o_reflect D fs = Ok (S, ow) -> packages_split S -> exists api, api_from_image D svcs W fs = Ok api.
+  ReflectNames.o_reflect_checked D fs = Ok (S, ow) -> packages_split S -> exists api, api_from_image D svcs W fs = Ok api.
 Proof. exact api_from_image_ok. Qed.
 Print Assumptions C15_api_from_image_ok.
 
